@@ -11,7 +11,7 @@ LEVEL = "fault_enumeration"
 FLAVORS = ["asan"]
 RULE = ("6 baseline scenarios (3 ticks each) that together configure every core plugin (all 7 detectors + dump_cgroup_overview, the five kill "
         "plugins wet and recursive, senpai in both modes, a ruleset-level cgroup, the root cgroup '/') plus a probe plugin; fault spaces: "
-        "F1 every (cgroup, control file) x {absent, empty, unreadable(EACCES)}; F2 each key removed from /proc/vmstat, /proc/meminfo, "
+        "F1 every (cgroup, control file) x {absent, empty, unreadable(EACCES), opens but every read(2) fails}; F2 each key removed from /proc/vmstat, /proc/meminfo, "
         "memory.stat, and /proc/swaps, meminfo, vmstat, pressure files absent/empty/malformed; F3 directory entries without d_type; F6 write(2) on each writable control file / the kmsg sink failing with EBUSY, EINTR (1 and 3 times), ENOSPC, ENODEV, EAGAIN or short, xattr reads failing with EIO/EACCES/ENOTSUP/ENODEV, trusted.* xattr writes refused; F4 for "
         "every index k of the tick's file-access sequence (open/openat/fopen/faccessat/fgetxattr as seen at the libc boundary) x every "
         "cgroup x {remove, remove+re-create}; F5 seeded multi-faults. One process per case under ASan+UBSan+_GLIBCXX_ASSERTIONS. The run "
@@ -19,7 +19,7 @@ RULE = ("6 baseline scenarios (3 ticks each) that together configure every core 
         "show up as unavailable statistics; statistics of the untouched control subtree must equal the fault-free run; C01 containment "
         "must hold on the faulted trace. quick = F1-F3 on 2 baselines + sampled F4/F5; thorough = everything. "
         "non-trivial = the fault was actually reached (faulted open observed / access index reached); distinct by (baseline, fault)")
-ASSUMPTIONS = ["faults are injected at the interposed libc boundary (ENOENT / EACCES / empty via /dev/null) or as world mutations run just before access k",
+ASSUMPTIONS = ["faults are injected at the interposed libc boundary (ENOENT / EACCES / empty via /dev/null / a descriptor whose reads fail with EISDIR, standing in for kernfs ENODEV, EOPNOTSUPP, EIO) or as world mutations run just before access k",
                "tmpfs stands in for kernfs: a removed cgroup's held dir fd stays valid but its files are gone (openat -> ENOENT)"]
 MIN_NONTRIVIAL = 20
 
@@ -145,12 +145,12 @@ def fault_cases(seed, tier):
         # F1
         for rel in WL:
             for fn in FILES:
-                for mode in ("absent", "empty", "eacces"):
+                for mode in ("absent", "empty", "eacces", "readfail"):
                     yield mk(bi, "F1", {"cg": rel, "file": fn, "mode": mode}, file_faults=[{"cg": rel, "file": fn, "mode": mode, "from_tick": rng.choice([0, 1])}])
         # F2
         scn = bases[bi][0]
         for pf in ("vmstat", "meminfo", "swaps", "pressure/memory", "pressure/io", "sys/vm/swappiness"):
-            for mode in ("absent", "empty", "eacces"):
+            for mode in ("absent", "empty", "eacces", "readfail"):
                 yield mk(bi, "F2", {"proc": pf, "mode": mode}, file_faults=[{"proc": pf, "mode": mode, "from_tick": rng.choice([0, 1])}])
         for key in ("pswpout", "pgscan_kswapd", "pgscan_direct", "nr_free_pages"):
             vm = CG.parse_kv(scn["proc"]["vmstat"])
@@ -202,7 +202,7 @@ def fault_cases(seed, tier):
     # F5 multi-faults
     for j in range(60 if quick else 1500):
         bi = rng.choice(use)
-        ffs = [{"cg": rng.choice(WL), "file": rng.choice(FILES), "mode": rng.choice(["absent", "empty", "eacces"]), "from_tick": rng.choice([0, 1, 2])} for _ in range(rng.randint(2, 5))]
+        ffs = [{"cg": rng.choice(WL), "file": rng.choice(FILES), "mode": rng.choice(["absent", "empty", "eacces", "readfail"]), "from_tick": rng.choice([0, 1, 2])} for _ in range(rng.randint(2, 5))]
         afs = []
         if rng.random() < 0.5:
             tick = rng.randrange(3)
@@ -238,7 +238,7 @@ def judge(case, results):
         reached = True
     v.nontrivial = reached
     # unavailable statistic
-    if m["kind"] == "F1" and m["fault"]["mode"] in ("absent", "eacces"):
+    if m["kind"] == "F1" and m["fault"]["mode"] in ("absent", "eacces", "readfail"):
         f = m["fault"]
         ft = scn["file_faults"][0]["from_tick"]
         for ti, evs in enumerate(ticks):
